@@ -751,7 +751,8 @@ MANIFEST = dict(
                 '— and for ANY hash values / section-size tables / heap sizes / shape sequences: every allocate/deallocate/placement-new/destructor '
                 'effect the model emits is accepted by the ledger judge (accepted = release with the size of the allocation, of a live block holding no constructed '
                 'slot; construction only over unconstructed slots inside a live block; destruction/read only of constructed slots — C19_accepted_*), so the hygiene flag '
-                'of every step is 0 unless the model reached an Abort outcome; at rest each register\'s ledger is exactly its buffers with exactly the slots its counters '
+                'of every step is 0 unless the model reached an Abort outcome (possible only in a KLL merge or a frequent-items update/merge: for REQ the guards are '
+                'proved unreachable, var_opt and the HLL block model have none that raises the flag); at rest each register\'s ledger is exactly its buffers with exactly the slots its counters '
                 'imply constructed (live items = retained items, + min/max for KLL); "destroy all" leaves no live block and no live item. The model is tied to '
                 'kll_sketch_impl.hpp / kll_helper_impl.hpp / theta_update_sketch_base_impl.hpp / reverse_purge_hash_map_impl.hpp by running both on the same generated '
                 'scripts with a tracking allocator and an instrumented item type under ASan/LSan/UBSan and comparing live item count, live item-buffer slots and '
@@ -763,7 +764,7 @@ MANIFEST = dict(
                 'destructible and assignable, chains, self-assignment, self-move, merge(std::move) — and behaviour when the item copy constructor throws. NOT claimed: '
                 'Regression_ledger.v: var_opt_sketch_lifecycle_ok (all histories without decrease_k_by_1) and two _refuted theorems with computed witnesses for the shipped '
                 'decrease_k_by_1 discipline (finding var_opt_union_result_item_lifetime: swap with the raw gap slot of the gadget copy; slot dropped by --k never destroyed); '
-                'var_opt weights_/marks_ and the union itself, quantiles, ebpps, HLL, CPC buffers have no ledger model; theta slot positions are canonicalised; the Abort outcomes (KLL general_compress space '
+                'var_opt weights_/marks_ and the union itself, quantiles, ebpps, CPC buffers have no ledger model; the HLL model is at block level only, its shapes are read from the implementation (not derived from the coupons); theta slot positions are canonicalised; the Abort outcomes (KLL general_compress space '
                 'bound — proved separately in coq/KllSpace.v for C07 —, frequent-items resize/purge/iterator consistency) are assumed unreachable, never observed; absence of '
                 'leaks / use-after-free / aliasing in the compiled C++ beyond the sampled scripts. Known findings are listed in known_findings.json (hll assignment x2, '
                 'ebpps merge with user allocator, optional::emplace, sorted-view release through the wrong allocator x3, exception safety of copy constructors / update / merge).'),
